@@ -23,6 +23,10 @@ pub struct Sched {
     pub v2: Vec<bool>,
     /// per delivery: pass through diff_updates against the receiver's state vector first
     pub diff: Vec<bool>,
+    /// per delivery: an update that was delivered earlier travels along in the same merged payload
+    /// (so a payload mixes content the receiver knows with content it lacks)
+    #[serde(default)]
+    pub stale: Vec<bool>,
 }
 
 pub fn sched_strategy() -> BoxedStrategy<Sched> {
@@ -32,8 +36,9 @@ pub fn sched_strategy() -> BoxedStrategy<Sched> {
         prop::collection::vec(prop_oneof![4 => Just(1u8), 1 => Just(2u8), 1 => Just(3u8)], 1..8),
         prop::collection::vec(any::<bool>(), 1..8),
         prop::collection::vec(prop::bool::weighted(0.2), 1..8),
+        prop::collection::vec(prop::bool::weighted(0.25), 1..8),
     )
-        .prop_map(|(keys, dup, group, v2, diff)| Sched { keys, dup, group, v2, diff })
+        .prop_map(|(keys, dup, group, v2, diff, stale)| Sched { keys, dup, group, v2, diff, stale })
         .boxed()
 }
 
@@ -63,7 +68,15 @@ pub fn plan(sched: &Sched, list: &[usize]) -> Vec<Delivery> {
     let mut pending_dup: Option<usize> = None;
     while j < m {
         let g = (sched.group[d % sched.group.len()] as usize).clamp(1, 3).min(m - j);
-        let idxs: Vec<usize> = order[j..j + g].iter().map(|i| list[*i]).collect();
+        let mut idxs: Vec<usize> = order[j..j + g].iter().map(|i| list[*i]).collect();
+        if !sched.stale.is_empty() && sched.stale[d % sched.stale.len()] && j > 0 {
+            // one of the updates delivered before, chosen by the permutation key of this position
+            let k = sched.keys[d % sched.keys.len()] as usize % j;
+            let old = list[order[k]];
+            if !idxs.contains(&old) {
+                idxs.push(old);
+            }
+        }
         let v2 = sched.v2[d % sched.v2.len()];
         let diff = sched.diff[d % sched.diff.len()];
         out.push(Delivery { idxs: idxs.clone(), v2, diff });
